@@ -409,10 +409,18 @@ impl Parser {
 
         let v = vec![
             Item::new(ParseElement::Environment(vec![Env { before: x.clone() , after: Vec::new(), position}]), position),
-            Item::new(ParseElement::Environment(vec![Env { before: Vec::new(), after: x.into_iter().rev().collect(), position}]), position)
+            Item::new(ParseElement::Environment(vec![Env { before: Vec::new(), after: Self::mirrored(x), position}]), position)
         ];
 
         Ok(Some(v))
+    }
+
+    /// `_,X` stands for `X_ , _X'` where X' is the mirror image of X: the order of its elements is reversed, inside optionals as well
+    fn mirrored(items: Vec<Item>) -> Vec<Item> {
+        items.into_iter().rev().map(|item| match item.kind {
+            ParseElement::Optional(inner, min, max) => Item::new(ParseElement::Optional(Self::mirrored(inner), min, max), item.position),
+            _ => item,
+        }).collect()
     }
 
     fn get_envs(&mut self) -> Result<Item, RuleSyntaxError> {
